@@ -30,6 +30,7 @@ pub mod c01_pool;
 pub mod c02_jumps;
 pub mod c02_args;
 pub mod qk;
+pub mod c03_tiny;
 pub mod c04_action;
 pub mod c04_map;
 pub mod c06_remap;
@@ -49,6 +50,7 @@ pub fn all() -> Vec<(&'static str, fn())> {
 	v.extend_from_slice(c01_pool::LIST);
 	v.extend_from_slice(c02_jumps::LIST);
 	v.extend_from_slice(c02_args::LIST);
+	v.extend_from_slice(c03_tiny::LIST);
 	v.extend_from_slice(c04_action::LIST);
 	v.extend_from_slice(c04_map::LIST);
 	v.extend_from_slice(c06_remap::LIST);
